@@ -183,6 +183,8 @@ def queue_backlog_probe(n=700, stall=0.25):
             return 'queue handed items out of order under a backlog: %r' % got[:8]
         if len(got) < n:
             ready, _, _ = ORIG_SELECT([q], [], [], 0)
+            if ready or not done.is_set():
+                return None      # out of time on a loaded machine (still readable / producer still running): inconclusive, not a failure
             return ('queue backlog: %d of %d items were handed over; it still holds %d item(s) (producer finished=%s) but is %sselect()-readable'
                     % (len(got), n, q.qsize(), done.is_set(), '' if ready else 'not '))
         return None
